@@ -30,11 +30,11 @@ theorem mem_chk_nan {b : Bool} (h : b = false) : Chk.nan ∈ chk .nan b := by
 
 /-- value-level soundness of `Op::type_info` for the strict operators -/
 theorem binop_sound (o : Opcode) (ho : strictOp o = true) (v w : Value) (l r : TypeDef)
-    (lv rv : Option Value) (T1 Tr : TState) (ef : Bool)
+    (lv rv : Option Value) (T1 Tr : TState)
     (hv : memR v l.kind = true) (hw : memR w r.kind = true) (hvs : v.Sorted = true) (hws : w.Sorted = true)
-    (hrv : ∀ c, rv = some c → w = c) (hchk : AllNan (opChecks o l lv T1 r Tr ef)) :
+    (hrv : ∀ c, rv = some c → w = c) (hchk : AllNan (opChecks o l lv T1 r Tr)) :
     (∀ x, binop o v w = .ok x → memR x (opDef o l lv r rv).kind = true ∧ x.Sorted = true) ∧
-    (binop o v w = .err → (opDef o l lv r rv).fallible = true ∨ Chk.nan ∈ opChecks o l lv T1 r Tr ef) := by
+    (binop o v w = .err → (opDef o l lv r rv).fallible = true ∨ Chk.nan ∈ opChecks o l lv T1 r Tr) := by
   cases o
   case err => simp [strictOp] at ho
   case or => simp [strictOp] at ho
@@ -139,22 +139,20 @@ theorem arithDef_fallible_r (o : Opcode) (l r : TypeDef) (nf : Bool) (h : r.fall
   repeat' split
   all_goals simp [TypeDef.fallibleUnless_mono _ _ h, h]
 
-/-- strict operators other than `/` keep what their operands may `return` -/
-theorem opDef_strict_returns (o : Opcode) (ho : strictOp o = true) (hd : o ≠ .div) (l r : TypeDef)
+/-- strict operators keep what their operands may `return` -/
+theorem opDef_strict_returns (o : Opcode) (ho : strictOp o = true) (l r : TypeDef)
     (lv rv : Option Value) : (opDef o l lv r rv).returns = l.returns.union r.returns := by
   cases o <;> first
     | (simp [strictOp] at ho; done)
-    | exact absurd rfl hd
     | exact arithDef_returns _ l r _
     | (simp only [opDef]; first | rfl | (split <;> simp [TypeDef.fallibleUnless_returns]))
 
 /-- … and the fallibility of their operands -/
-theorem opDef_strict_fallible (o : Opcode) (ho : strictOp o = true) (hd : o ≠ .div) (l r : TypeDef)
+theorem opDef_strict_fallible (o : Opcode) (ho : strictOp o = true) (l r : TypeDef)
     (lv rv : Option Value) (h : l.fallible = true ∨ r.fallible = true) :
     (opDef o l lv r rv).fallible = true := by
   cases o <;> first
     | (simp [strictOp] at ho; done)
-    | exact absurd rfl hd
     | (rcases h with h | h
        · exact arithDef_fallible_l _ l r _ h
        · exact arithDef_fallible_r _ l r _ h)
@@ -164,8 +162,18 @@ theorem opDef_strict_fallible (o : Opcode) (ho : strictOp o = true) (hd : o ≠ 
          | ((split <;> rcases h with h | h <;> simp [TypeDef.fallibleUnless_mono _ _ h, h]); done))
 
 theorem opState_strict (o : Opcode) (ho : strictOp o = true) (l : TypeDef) (lv : Option Value) (T1 Tr : TState) :
-    opState o l lv T1 Tr = if o = .div then T1 else Tr := by
+    opState o l lv T1 Tr = Tr := by
   cases o <;> first | (simp [strictOp] at ho; done) | rfl
+
+/-- the side conditions of every strict operator include the union of the operands' `returns` -/
+theorem opChecks_strict_returns (o : Opcode) (ho : strictOp o = true) (l r : TypeDef) (lv : Option Value)
+    (T1 Tr : TState) (h : AllNan (opChecks o l lv T1 r Tr)) : unionOk l.returns r.returns = true := by
+  cases o <;> first
+    | (simp [strictOp] at ho; done)
+    | (simp only [opChecks, allNan_append] at h
+       first
+         | (rw [allNan_chk (by decide)] at h; exact h.1)
+         | (have := h.2; rwa [allNan_chk (by decide)] at this))
 
 theorem ofArith_shape (r : Arith.Res Value) : (∃ x, ofArith r = .ok x) ∨ ofArith r = .err ∨ ofArith r = .panic := by
   cases r
